@@ -569,7 +569,8 @@ theorem pStmts_okK (ks : List (List Char × BStmt)) : ∀ (f : Nat) (s : List Ch
         obtain ⟨r1, hn1, h1⟩ := Lexes.cons_inv h
         obtain ⟨r2, hp, h2⟩ := pParams_ok ns f r1 _ h1 (by simp only [List.length_append] at hf hlen ⊢; omega)
         have := ih f r2 hk.2 hrest h2 (by simp only [List.length_append] at hf; omega)
-        simp only [pStmts, hn1, hk.1, if_true, hp, this, List.map_cons]
+        have hkw : isKw kw = true := hk.1
+        simp only [pStmts, hn1, hkw, if_true, hp, this, List.map_cons]
       | gate n k d =>
         simp only [stmtTK, stmtT, List.cons_append] at h
         obtain ⟨r1, hn1, h1⟩ := Lexes.cons_inv h
@@ -583,10 +584,11 @@ theorem pStmts_okK (ks : List (List Char × BStmt)) : ∀ (f : Nat) (s : List Ch
         simp only [pStmts, hn1, hkn, hn2, hn3, hp, this, String.ofList_toList, List.map_cons]
         simp
 
-theorem stmtTK_ok (kw : List Char) (hk : isKw kw = true) (st : BStmt) (h : validStmt st = true) :
+theorem stmtTK_ok (kw : List Char) (st : BStmt) (hk : kwOK (kw, st) = true) (h : validStmt st = true) :
     ∀ t ∈ stmtTK kw st, tokOK t = true := by
   cases st with
   | intf ns =>
+    have hk : isKw kw = true := hk
     intro t ht
     simp only [stmtTK, List.mem_cons] at ht
     rcases ht with ht | ht
@@ -603,7 +605,7 @@ theorem benchToksK_ok (ks : List (List Char × BStmt)) (hk : kwsOK ks = true) (h
     intro t ht
     rw [benchToksK_cons, List.mem_append] at ht
     rcases ht with ht | ht
-    · exact stmtTK_ok p.1 hk.1 p.2 (hv p List.mem_cons_self) t ht
+    · exact stmtTK_ok p.1 p.2 hk.1 (hv p List.mem_cons_self) t ht
     · exact ih hk.2 (fun x hx => hv x (List.mem_cons_of_mem _ hx)) t ht
 
 /-- every layout of a token stream in which each interface statement is spelled with ANY of the four keyword literals parses to
